@@ -10,12 +10,13 @@ import common
 from sx import Sym
 
 RULE = ("exhaustive: every array shape of rank 0-3 with extents 0..4 (156 shapes) x dtypes {f4,f8,i4,i8,bool,object} plus flat "
+        "the rank-1/2 shapes again as non-owning views, Fortran-ordered, read-only and strided arrays; flat "
         "lists/tuples of length 0..4, None, str, int, float, dict for each of the 25 validated constructor arguments (geometry of "
         "3D / force-torque / calibration blocks, the seven Seelab camera parameters, viewport halves, viewport parameters of "
         "channel and camera records); for the coupled arrays of a force/torque track every triple of shapes of rank<=2 with "
-        "extents {0,1,2,3,5}; events x both kinds x sized/unsized/non-iterable values; for every ACCEPTED object: nBytes = "
+        "extents {0,1,2,3,5}, once as separate arrays and once cut from one owning table; events x both kinds x sized/unsized/non-iterable values; for every ACCEPTED object: nBytes = "
         "len(encoding) = the model's field width. non-trivial = argument that is an array; distinct by (parameter, argument)")
-ASSUMPTIONS = ["acceptance depends on kind and shape only, not on element values; nested lists are not generated for viewport halves",
+ASSUMPTIONS = ["acceptance depends on kind and shape only, not on element values or on how the array was obtained; nested lists are not generated for viewport halves",
                "'refuse' = any exception at construction time"]
 
 SHAPES = [()] + [s for r in (1, 2, 3) for s in itertools.product(range(5), repeat=r)]
@@ -28,6 +29,33 @@ class AcceptedButUnusable(Exception):
 
 def good(shape, dt="<f4"):
     return np.arange(int(np.prod(shape)) if shape else 1, dtype="<f8").reshape(shape).astype(dt)
+
+
+def carved(shapes, dt="<f4"):
+    """arrays of the given shapes that are all views of ONE owning array (columns / slices cut from a common table)"""
+    sizes = [int(np.prod(sh)) if sh else 1 for sh in shapes]
+    pool = np.arange(sum(sizes) + 1, dtype="<f8").astype(dt)
+    out, o = [], 0
+    for sh, z in zip(shapes, sizes):
+        out.append(pool[o:o + z].reshape(sh))
+        o += z
+    return out
+
+
+def provenance(shape, dt, how):
+    """the same shape and dtype through another route: a non-owning view, Fortran order, read-only, non-contiguous"""
+    a = good(shape, dt)
+    if how == "view":
+        return carved([shape], dt)[0]
+    if how == "fortran":
+        return np.asfortranarray(a)
+    if how == "readonly":
+        a.setflags(write=False)
+        return a
+    big = np.zeros(tuple(2 * e for e in shape), dtype=dt)       # every second element of a larger array
+    v = big[tuple(slice(None, None, 2) for _ in shape)]
+    v[...] = a
+    return v
 
 
 def std(name):
@@ -90,6 +118,10 @@ def args_space(rng, thorough):
     for s in SHAPES:
         for dt in (DTYPES if thorough or len(s) <= 2 else DTYPES[:2]):
             out.append((good(s, dt), [Sym("nd"), list(s)], f"ndarray{s}:{dt}"))
+    for s in SHAPES:
+        if len(s) in (1, 2) and (thorough or max(s) <= 3):
+            for how in ("view", "fortran", "readonly", "strided"):
+                out.append((provenance(s, "<f4", how), [Sym("nd"), list(s)], f"ndarray{s}:<f4:{how}"))
     for n in range(5):
         out.append(([1] * n, [Sym("list"), n], f"list{n}"))
         out.append((tuple([1] * n), [Sym("tuple"), n], f"tuple{n}"))
@@ -115,6 +147,9 @@ def run(ctx):
     for t in triples:
         queries.append([Sym("coupled")] + [[Sym("nd"), list(s)] for s in t])
         meta.append(("force3d.track", t, f"coupled{t}"))
+    for t in triples:       # the same triples with all three arrays cut from one owning table
+        queries.append([Sym("coupled")] + [[Sym("nd"), list(s)] for s in t])
+        meta.append(("force3d.track", t, f"coupled-views{t}"))
     for nonarr in ([1, 2, 3], None, "x"):
         queries.append([Sym("coupled"), Sym("other"), [Sym("nd"), [2, 3]], [Sym("nd"), [2, 3]]])
         meta.append(("force3d.track", ("nonarray", nonarr), "coupled non-array"))
@@ -138,6 +173,8 @@ def run(ctx):
             if param == "force3d.track":
                 if obj[0] == "nonarray":
                     tr = ForceTorqueTrack("t", obj[1], good((2, 3)), good((2, 3)))
+                elif desc.startswith("coupled-views"):
+                    tr = ForceTorqueTrack("t", *carved(obj))
                 else:
                     tr = ForceTorqueTrack("t", good(obj[0]), good(obj[1]), good(obj[2]))
                 try:
